@@ -359,6 +359,98 @@ Section SimExact.
   Qed.
 End SimExact.
 
+(* ================================================================== 5. the delivered stream *)
+Lemma nkind_cmask C rw : cmask rw -> nkind_of C rw = KOther.
+Proof. intros [H|H]; unfold nkind_of; rewrite H; reflexivity. Qed.
+
+Lemma group_go_creates C b : forall g, Forall cmask b -> group_go C b g = g ++ map Single b.
+Proof.
+  induction b as [|rw b IH]; intros g H; cbn [group_go map]; [now rewrite app_nil_r|]. inversion H; subst.
+  rewrite nkind_cmask by assumption. rewrite IH by assumption. now rewrite <- app_assoc.
+Qed.
+
+(* what one create record turns into: the created event and the parent's DirModified *)
+Definition create_events (xv : bytes * bool) : list nevent := [mk (created_cls (snd xv)) (fst xv) []; parent_modified (fst xv)].
+
+Lemma delivered_creates C full w b : Forall cmask b -> ReplayProofs.delivered C full w b = flat_map create_events (map craw_of b).
+Proof.
+  intros H. unfold ReplayProofs.delivered, group_batch. rewrite group_go_creates by exact H. cbn [app].
+  induction b as [|rw b IH]; [reflexivity|]. inversion H as [|? ? Hc Hb]; subst.
+  cbn [map filter put_item]. rewrite (nkind_cmask C rw Hc). cbn [emit_all emit].
+  assert (E : emit_single full (c_recursive C) (c_root C) (content (w_fs w)) rw = (create_events (craw_of rw), false)).
+  { unfold emit_single, create_events, craw_of. cbv zeta. destruct Hc as [E|E]; rewrite E; reflexivity. }
+  rewrite E. cbn [flat_map app]. now rewrite IH.
+Qed.
+
+(* every entry the burst added has its record *)
+Definition add_op (o : op) : Prop := match o with Mkdir _ | Touch _ => True | _ => False end.
+
+Lemma burst_new ops : Forall add_op ops -> forall k w e, In e (w_fs (snd (burst_end k w ops))) ->
+  In e (w_fs w) \/ exists rc, In rc (burst_recs w ops) /\ o_op rc = (if f_dir e then Mkdir (f_path e) else Touch (f_path e)).
+Proof.
+  induction 1 as [|o ops Ho Hops IH]; intros k w e He; cbn [burst_end burst_recs] in *; [now left|].
+  destruct (apply_op w o) as [w'|] eqn:Ea; [|exact (IH _ _ _ He)].
+  destruct (IH _ w' e He) as [Hin|(rc & Hrc & Erc)]; [|right; exists rc; split; [now right | exact Erc]].
+  destruct o as [q|q|q|q|q|q|q q']; try contradiction; cbn [apply_op] in Ea;
+    (destruct (fisdir (dirname q) (w_fs w) && negb (fexists q (w_fs w))); [|discriminate]); injection Ea as <-; cbn [w_fs] in Hin;
+    (apply in_app_iff in Hin as [Hin|[<-|[]]]; [now left|]); right; (eexists; split; [left; reflexivity|]); reflexivity.
+Qed.
+
+Lemma below_add p o : below_op p o -> add_op o.
+Proof. destruct o; cbn; auto. Qed.
+
+Section ArrivalStream.
+  Variable C : cfg.
+  Hypothesis Hfaults : c_faults C = [].
+  Hypothesis Hsim : c_fix_simulate C = true.
+
+  (* the records of the read: p, then one create record for every entry below p *)
+  Lemma arrival_raws w k r p rest : RSync C w k r -> npath p -> c_recursive C = true -> scope C p ->
+    N.land IN_CREATE (c_mask C) <> 0%N ->
+    Forall (below_op p) rest ->
+    forall w1, apply_op w (Mkdir p) = Some w1 ->
+    let KB := fst (burst_end k w (Mkdir p :: rest)) in let wn := snd (burst_end k w (Mkdir p :: rest)) in
+    exists r' k' raws, read_batch C (w_fs wn) (r, drainq KB, []) (k_queue KB) = Done (r', k', raws) /\
+      RSync C wn k' r' /\
+      grown p (w_next_ino w) (w_fs w) (w_fs wn) /\
+      (forall e, In e (w_fs w) -> f_path e <> p /\ under p (f_path e) = false) /\ p <> c_root C /\
+      Forall cmask raws /\
+      (forall x v, In (x, v) (map craw_of raws) <->
+                   exists e, In e (w_fs wn) /\ f_path e = x /\ f_dir e = v /\ (x = p \/ under p x = true)).
+  Proof.
+    intros S Np Hrec Sp Hm Hrest w1 Ha KB wn.
+    destruct (arrival_main C Hfaults Hsim w k r p rest S Np Hrec Sp Hm Hrest w1 Ha)
+      as (r' & k' & raws & Hrd & S' & _ & G & Hold & Hpr & ev0 & r3 & k3 & x & kwx & Ep0 & Em0 & Hx & Ex & Dx & I3 & Cx & Hsimu).
+    fold wn in Hrd, S', G, Hx, I3, Hsimu.
+    assert (Wn := rs_wf _ _ _ _ S').
+    assert (Fp : fisdir p (w_fs wn) = true) by (apply (in_fisdir p _ (wf_paths _ Wn)); exists x; auto).
+    assert (Hps : Forall (dir_in_scope C (w_fs wn)) (dirs_of (walk p (content (w_fs wn) p)))).
+    { apply Forall_forall. intros y Hy. apply (walk_dirs_spec _ p Wn Fp) in Hy as (e & He & Ee & De & Ue).
+      exists e. repeat split; try assumption. now apply (scope_under C p). }
+    assert (P0 : p <> [] /\ last_is_sep p = false).
+    { destruct Np as (d & n & -> & _ & Hv). split; [now destruct d | now apply child_last_sep]. }
+    assert (Hwf : wf_tree (content (w_fs wn) p) = true).
+    { apply content_wf. intros e He. apply npath_wf_path. exact (wf_np wn Wn e He). }
+    destruct (simulate_exact C Hfaults wn Wn (walk p (content (w_fs wn) p)) [p] r3 k3 [ev0] I3) as (r4 & k4 & sims & Es & Ms & Fs).
+    { intros y [<-|[]]. exists x, kwx. auto. }
+    { apply walk_gw; [exact (proj1 P0) | exact (proj2 P0) | exact Hwf | now left]. }
+    { exact Hps. }
+    rewrite Hsimu in Es. injection Es as <- <- ->.
+    exists r', k', ([ev0] ++ sims). split; [exact Hrd|]. split; [exact S'|]. split; [exact G|]. split; [exact Hold|].
+    split; [exact Hpr|]. split; [constructor; [right; exact Em0 | exact Fs]|].
+    assert (E0 : craw_of ev0 = (p, true)) by (unfold craw_of; rewrite Ep0, Em0; reflexivity).
+    intros y v. cbn [app map]. rewrite E0, Ms. fold (sub_created_events p (content (w_fs wn) p)).
+    rewrite (sub_created_correct p (proj1 P0) (proj2 P0) _ Hwf), map_map.
+    assert (EL : map (fun d : kind * list bytes => kp2 (expect_created p d)) (desc [] (content (w_fs wn) p)) =
+                 map (fun d : kind * list bytes => (p ++ relsuffix (snd d), kdir (fst d))) (desc [] (content (w_fs wn) p)))
+      by (apply map_ext; intros [kd rel]; reflexivity).
+    rewrite EL. cbn [In]. rewrite (content_listing wn p Wn Fp y v). split.
+    - intros [E|(e & He & Ee & De & Ue)]; [injection E as <- <-; exists x; auto | exists e; auto].
+    - intros (e & He & Ee & De & [Ey|Ue]); [left | right; exists e; auto].
+      assert (e = x) by (apply (path_inj (w_fs wn)); [apply Wn | exact He | exact Hx | congruence]). subst e. congruence.
+  Qed.
+End ArrivalStream.
+
 (* the statement of Props/C02.v *)
 Theorem burst_arrival_cover C w k r p rest : c_faults C = [] -> c_fix_simulate C = true ->
   RSync C w k r -> npath p -> c_recursive C = true -> scope C p -> N.land IN_CREATE (c_mask C) <> 0%N ->
